@@ -3,6 +3,7 @@ package eng
 import (
 	"fmt"
 	"go/constant"
+	"strconv"
 	"go/token"
 	"go/types"
 	"sort"
@@ -13,11 +14,14 @@ import (
 
 // CheckConfig selects what is generated for a function.
 type CheckConfig struct {
-	Safety      bool // generate the zero-annotation safety sweep
-	StrBytes    bool // keep byte-level facts about string<->[]byte conversions (quantified)
-	MaxPaths    int
-	InlineDepth int
-	NilDeref    bool
+	Safety      bool `json:"safety"`       // generate the zero-annotation safety sweep
+	StrBytes    bool `json:"strbytes"`     // keep byte-level facts about string<->[]byte conversions (quantified)
+	MaxPaths    int  `json:"max_paths"`
+	InlineDepth int  `json:"inline_depth"`
+	NilDeref    bool `json:"nilderef"`
+	// Unroll > 0 switches to witness-search mode: loops are unrolled that many times without
+	// invariants (bounded; used only to find reachable counterexamples for replay, never to prove).
+	Unroll int `json:"-"`
 }
 
 type loop struct {
@@ -120,7 +124,7 @@ func kindsOf(in ssa.Instruction) []string {
 	case *ssa.MakeSlice:
 		return []string{"makelen"}
 	case *ssa.MapUpdate:
-		return []string{"nilmap-write"}
+		return []string{"nilmap-write", "container-inv"}
 	case *ssa.TypeAssert:
 		if !x.CommaOk {
 			return []string{"typeassert"}
@@ -146,7 +150,7 @@ func kindsOf(in ssa.Instruction) []string {
 	case *ssa.Store:
 		return []string{"nilderef", "guarded-access"}
 	case *ssa.Send:
-		return []string{"send-closed"}
+		return []string{"send-closed", "container-inv"}
 	case *ssa.Lookup:
 		return []string{"index"}
 	case *ssa.Return:
@@ -409,9 +413,12 @@ func (e *Engine) load(s *State, a *Addr, in ssa.Instruction) *Val {
 			z := e.zero(t)
 			return z
 		}
-		return &Val{L: c.L, NN: c.NN}
+		return &Val{L: c.L, NN: c.NN, Src: c.Src}
 	}
 	v := &Val{NN: true}
+	if a.K == AField && !strings.Contains(a.Path[1:], ".") {
+		v.Src = a.SKey + a.Path
+	}
 	for _, l := range e.leaves(t) {
 		var term string
 		switch a.K {
@@ -434,13 +441,98 @@ func (e *Engine) load(s *State, a *Addr, in ssa.Instruction) *Val {
 	if a.K == AField {
 		e.checkGuard(s, a, in, false)
 	}
+	if a.K == AGlobal {
+		if n, ok := e.constGlobalLen(a.Glob); ok && len(v.L) == 4 {
+			s.assume(and(eq(v.L[2], num(n)), not(eq(v.L[0], "0"))))
+		}
+	}
 	return v
+}
+
+// constGlobalLen: a package-level slice variable that is assigned exactly once (in the package
+// initialiser, from an array literal) and whose address is never taken elsewhere has a known length.
+// The check is structural over every function of the package, on every run.
+func (e *Engine) constGlobalLen(g *ssa.Global) (int64, bool) {
+	if _, ok := deref(g.Type()).Underlying().(*types.Slice); !ok || g.Pkg == nil {
+		return 0, false
+	}
+	if r, ok := e.globLen[g]; ok {
+		return r, r >= 0
+	}
+	res := int64(-1)
+	stores := 0
+	for _, m := range g.Pkg.Members {
+		fn, ok := m.(*ssa.Function)
+		if !ok {
+			continue
+		}
+		fns := append([]*ssa.Function{fn}, fn.AnonFuncs...)
+		for _, f := range fns {
+			for _, b := range f.Blocks {
+				for _, in := range b.Instrs {
+					for _, op := range in.Operands(nil) {
+						if *op != ssa.Value(g) {
+							continue
+						}
+						switch x := in.(type) {
+						case *ssa.Store:
+							if x.Addr == ssa.Value(g) {
+								stores++
+								if f.Name() == "init" {
+									if sl, ok := x.Val.(*ssa.Slice); ok {
+										if at, ok := deref(sl.X.Type()).Underlying().(*types.Array); ok && sl.Low == nil && sl.High == nil {
+											res = at.Len()
+										}
+									}
+								} else {
+									stores += 100
+								}
+							} else {
+								stores += 100
+							}
+						case *ssa.UnOp:
+						default:
+							stores += 100 // address escapes
+						}
+					}
+				}
+			}
+		}
+	}
+	// methods of named types
+	for _, f := range e.P.All {
+		if f.Pkg != g.Pkg || f.Signature.Recv() == nil {
+			continue
+		}
+		for _, b := range f.Blocks {
+			for _, in := range b.Instrs {
+				for _, op := range in.Operands(nil) {
+					if *op == ssa.Value(g) {
+						if u, ok := in.(*ssa.UnOp); !ok || u.Op != token.MUL {
+							stores += 100
+						}
+					}
+				}
+			}
+		}
+	}
+	if stores != 1 {
+		res = -1
+	}
+	if e.globLen == nil {
+		e.globLen = map[*ssa.Global]int64{}
+	}
+	e.globLen[g] = res
+	if res >= 0 {
+		e.note(fmt.Sprintf("package variable %s is assigned once (initialiser, length %d) and never re-assigned or address-taken (checked)", g.Name(), res))
+	}
+	return res, res >= 0
 }
 
 func (e *Engine) store(s *State, a *Addr, v *Val, in ssa.Instruction) {
 	t := a.T
 	if a.K == ALocal {
-		s.Locals[a.Alloc] = &cell{L: v.L, NN: v.NN}
+		s.Locals[a.Alloc] = &cell{L: v.L, NN: v.NN, Src: v.Src}
 		return
 	}
 	ls := e.leaves(t)
@@ -641,7 +733,18 @@ func (e *Engine) runFunc(s0 *State, fn *ssa.Function, args []*Val, binds []*Val,
 			e.unsupportedf("path budget exceeded (%d block visits)", e.npaths)
 		}
 		b := it.b
-		if l := li.byHeader[b]; l != nil {
+		if l := li.byHeader[b]; l != nil && e.Cfg.Unroll > 0 {
+			if it.prev != nil && l.blocks[it.prev] {
+				n := 0
+				if m := s.LoopEntry[b]; m != nil {
+					n, _ = strconv.Atoi(m["n"])
+				}
+				if n >= e.Cfg.Unroll {
+					continue
+				}
+				s.LoopEntry[b] = map[string]string{"n": strconv.Itoa(n + 1)}
+			}
+		} else if l != nil {
 			if it.prev != nil && l.blocks[it.prev] {
 				e.loopBack(s, fn, l)
 				if depth == 0 {
